@@ -187,6 +187,7 @@ StepResult(st, o, c, sc) ==
              crash == o.sig # 0 \/ o.san \/ o.status \notin {0, 1} IN
          [C |-> c, why |->
             IF crash THEN "the bloc process crashed or reported a sanitizer error (status " \o ToString(o.status) \o ", signal " \o ToString(o.sig) \o ")"
+            ELSE IF Has(st, "free") THEN ""          \* only the outcome alphabet (no crash, status 0 or 1)
             ELSE IF Has(st, "reject") THEN
                  (IF o.status = 0 THEN "a text with a compile error gave exit status 0"
                   ELSE IF o.err_empty THEN "no message on standard error for a compile error"
